@@ -236,6 +236,12 @@ const TEMPLATES: &[&[&str]] = &[
     // S, R shapes
     &["Wa Wb", "Rb Wa"],
     &["Wa Wb", "Wb Ra"],
+    // coherence through a happens-before chain: a write after another thread's read / write
+    &["Wa", "Ra Wb", "Rb Wa Ra"],
+    &["Wa", "Ra F Wb", "Rb F Wa Ra"],
+    &["Wa", "Ra Wb", "Rb Ua Ra"],
+    &["Wa Wb", "Rb Wa Ra"],
+    &["Wa", "Ra Wb", "Rb Wc", "Rc Wa Ra"],
     // 3-location chains
     &["Wa Wb", "Rb F Wc", "Rc F Ra"],
     &["Wa F Wb", "Ub Wc", "Rc Ra"],
@@ -1014,6 +1020,63 @@ pub fn gen_many_stores(rng: &mut Rng) -> Program {
         t0.push(Op::Load { a: 0, o: MO::Rlx });
     }
     p.threads = vec![t0, t1];
+    p
+}
+
+/// Message passing through a channel: the sender writes a cell before each send; the receiver
+/// takes the messages with a mix of `recv` and `try_recv` and reads the cell that belongs to the
+/// message it got (each receive must synchronise with ITS send).
+pub fn gen_chan_mp(rng: &mut Rng) -> Program {
+    let mut vs = ValueSrc::new();
+    let k = rng.range(2, 3);
+    let mut p = Program { n_chan: 1, n_cell: k as u8, ..Default::default() };
+    let mut sender = Vec::new();
+    let mut vals = Vec::new();
+    for i in 0..k {
+        sender.push(Op::CWrite { c: i as u8, v: vs.constant() });
+        let v = vs.constant();
+        vals.push(v);
+        sender.push(Op::Send { c: 0, v });
+    }
+    let mut recv = Vec::new();
+    for i in 0..k {
+        let pc = recv.len() as u8;
+        if rng.chance(1, 2) {
+            recv.push(Op::TryRecv { c: 0 });
+        } else {
+            recv.push(Op::Recv { c: 0 });
+        }
+        // whichever message arrived: read its cell
+        let j = if rng.chance(3, 4) { i } else { rng.below(k) };
+        recv.push(Op::If { pc, eq: vals[j], then: Box::new(Op::CRead { c: j as u8 }) });
+    }
+    match rng.below(3) {
+        0 => {
+            // receiver is main
+            let mut t0 = vec![Op::Spawn { t: 1 }];
+            t0.extend(recv);
+            for op in t0.iter_mut() {
+                if let Op::If { pc, .. } = op {
+                    *pc += 1;
+                }
+            }
+            t0.push(Op::Join { t: 1 });
+            t0.push(Op::DropRx { c: 0 });
+            p.threads = vec![t0, sender];
+        }
+        1 => {
+            // sender is main
+            let mut t0 = vec![Op::Spawn { t: 1 }];
+            t0.extend(sender);
+            t0.push(Op::Join { t: 1 });
+            recv.push(Op::DropRx { c: 0 });
+            p.threads = vec![t0, recv];
+        }
+        _ => {
+            recv.push(Op::DropRx { c: 0 });
+            p.threads = vec![vec![Op::Spawn { t: 1 }, Op::Spawn { t: 2 }, Op::Join { t: 1 }, Op::Join { t: 2 }], sender, recv];
+        }
+    }
     p
 }
 
